@@ -34,6 +34,8 @@ def hist_part(V, tr, sd):
 def main():
     V = core.Verdicts("C07")
     extra = hist_part(V, core.tier(), core.seed())
+    from . import gas, therm
+    extra.update(gas.gas_part(V, "C07", core.tier(), core.seed(), [{"numba": True}]))
     rc1 = V.finish()
     rc2 = ref.run_check("C07", RULE, nmax_quick=240, workers=4, extra_cov=extra, prior_violations=len(V.violations))
     return 1 if (rc1 or rc2) else 0
